@@ -690,7 +690,16 @@ impl EGraph {
             self.report_level,
             context,
         )?;
-        if let Some(message) = self.panic_message.lock().unwrap().take() {
+        let panic_message = self.panic_message.lock().unwrap().take();
+        if let Some(message) = panic_message {
+            // The failed iteration may already have applied unions. Restore canonical ids before
+            // reporting the error, so that the database stays consistent for later commands.
+            if self.db.get_table(self.uf_table).len() != uf_size_before {
+                self.rebuild()?;
+                self.panic_message.lock().unwrap().take();
+            } else {
+                self.inc_ts();
+            }
             return Err(PanicError(message).into());
         }
 
